@@ -263,23 +263,48 @@ def check_scan(st, res, rule):
                     okl = True
                 if re.match(r"^IntoIterator@\w+::into_iter\((slice::iter\()?(Deref@Oset::deref\()?(Deref@Oset::deref\()?param1\.machine\.states\)?\[param\d+\.0\]\.items\)?\)?\)$", it):
                     okl = True
+                # the items of states[i] with i the counter of the enclosing loop over 0..states.len() (the two scans merged)
+                if re.match(r"^IntoIterator@\w+::into_iter\((slice::iter\()?(Deref@Oset::deref\()?(Deref@Oset::deref\()?param1\.machine\.states\)?\[\(range::next\(IntoIterator@\w+::into_iter\(Range::Range\{const\(0_usize\), (slice|Vec)::len\((Deref@Oset::deref\()?param1\.machine\.states\)?\)\}\)\) as Some\)\.0\]\.items\)?\)?\)$", it):
+                    okl = True
                 if re.match(r"^IntoIterator@\w+::into_iter\(Iterator::enumerate\(slice::iter\((Deref@Oset::deref\()?param1\.machine\.states\)?\)\)\)$", it):
                     okl = True
                 mp = re.match(r"^IntoIterator@\w+::into_iter\((?:slice::iter\()?(?:Deref@Oset::deref\()?param(\d+)\.items\)?\)?\)$", it)
                 if mp and fn.inputs[int(mp.group(1)) - 1]["head"].endswith("::State") and state_param_is_own_state(st, fn, int(mp.group(1))):
                     okl = True  # the state itself is handed down next to its index, both from one enumerate() element
-            # the scan cannot be bypassed: no normal return is reachable from the entry without entering the loop
-            work, seen_b = [0], set()
+            # the scan cannot be bypassed: no normal return is reachable from the entry without entering the loop;
+            # for a loop nested in another scan loop: no way round the outer body (back to its head) without entering it
+            outer = [(h2, b2) for (h2, b2, e2) in scans if e2 is None and h2 != h and h in b2 and body < b2]
             bypass = None
-            while work:
-                x = work.pop()
-                if x in seen_b or x == h or fn.blocks[x]["cleanup"]:
-                    continue
-                seen_b.add(x)
-                if fn.blocks[x]["term"]["k"] == "return":
-                    bypass = x
-                    break
-                work.extend(fn.succs(x))
+            if outer and each is None:
+                h2, b2 = min(outer, key=lambda x_: len(x_[1]))
+                t2 = fn.blocks[h2]["term"]
+                # successors of the outer head that stay in its body (the `Some` edge of its `next`), followed to the back edge
+                work, seen_b = [x_ for x_ in fn.succs(h2) if x_ in b2], set()
+                # (the head block of a `for` calls next(); the test on its result is a few blocks later: walk from the head)
+                while work:
+                    x = work.pop()
+                    if x in seen_b or x == h or x not in b2 or fn.blocks[x]["cleanup"]:
+                        continue
+                    seen_b.add(x)
+                    for y in fn.succs(x):
+                        if y == h2 and x != h2:
+                            # reached the outer back edge without the inner loop: only acceptable through the outer
+                            # loop's own exhaustion test, which leaves the body instead — so this is a bypass
+                            bypass = x
+                        work.append(y)
+                    if bypass is not None:
+                        break
+            else:
+                work, seen_b = [0], set()
+                while work:
+                    x = work.pop()
+                    if x in seen_b or x == h or fn.blocks[x]["cleanup"]:
+                        continue
+                    seen_b.add(x)
+                    if fn.blocks[x]["term"]["k"] == "return":
+                        bypass = x
+                        break
+                    work.extend(fn.succs(x))
             if bypass is not None:
                 res.violate(rule, "loop-bypass|%s" % fn.path, fn.where, "%s can return without entering its scan loop: some states/items are never examined (their actions are missing and their conflicts unreported)" % fn.path)
             res.inst(rule, "loop|%s" % fn.path, fn.where, True, "iterates %s; bypass: %s" % (desc, bypass is not None))
@@ -420,4 +445,4 @@ def check_guards(st, res, rule):
             for ce in bad[:1]:
                 res.violate(rule, "guard|%s->%s" % (fn.path.rsplit("::", 1)[-1], (c.rpath or "?").rsplit("::", 1)[-1]), c.where,
                             "the call of `%s` is skipped depending on what the action map already holds (`%s`): a second, different action for an occupied cell never reaches the conflict detector" % (c.rpath, ce[:160]))
-    res.floor("calls on the way to the conflict detector checked for builder-dependent guards", n, 5)
+    res.floor("calls on the way to the conflict detector checked for builder-dependent guards", n, 2)
